@@ -419,6 +419,11 @@ def run_cap_case(arg):
             bad = {kk: [want_all[kk], jp.get(kk)] for kk in want_all if jp.get(kk) != want_all[kk]}
             if bad:
                 out["viol"].append(("C05/caps/value-under-regrouped-child-output/" + sorted(bad)[0], {"case": name, "diff": bad, "rules": rules}))
+        class _C:
+            def count(self, n=1): out["evals"] += n
+            def bump(self, *a): pass
+            def violation(self, sig, det): out["viol"].append((sig, dict(det, case=name)))
+        R.fault_probe(_C(), "C05", binary, gitdir, ["--json", "--no-progress"], rng, shimdir, d, n=3, baseline=None)
         subtrees = [o for o in ex.reach.values() if o.kind == "tree" and any(e.kind == G.TREE for e in o.entries)]
         if subtrees and not has_huge:
             m2refs = dict(m.refs)
